@@ -102,6 +102,10 @@ pub fn run_e1<O: Observer>(property: &str, plans: Vec<Plan>, ctx: &WorkerCtx, ru
             continue;
         }
         p.opts.threads = ctx.threads();
+        if p.opts.wall_budget_s == 0 {
+            // safety net: a plan that runs out of its budget is reported as not exhaustive, never as a verdict
+            p.opts.wall_budget_s = if ctx.quick() { 150 } else { 1200 };
+        }
         let t0 = std::time::Instant::now();
         let base = pi as u64 * 10_000_000;
         let r = explore_all::<O>(&p.cfgs, &*p.alpha_for, &p.opts, 12, base, ctx.only_unit);
